@@ -136,6 +136,9 @@ def hir_sites(root):
 # ---------------------------------------------------------------------------------------------
 # intervals
 
+YIELD_RANGE = {}      # iterator type path -> (lo, hi) of every value its next() yields; filled by the rule that proves it (C04 links C13)
+
+
 class Ctx:
     """Per-function context: let bindings (immutable locals), assignment counts, constants."""
 
@@ -170,6 +173,42 @@ class Ctx:
                 if l.get("k") == "local":
                     self.assigned.add((l["name"], l.get("id")))
         self.assign_nodes = [n for n in hir.walk(body["hir"]) if n.get("k") in ("assign", "assignop")]
+        # locals bound to what an iterator with a proved yield range hands out (YIELD_RANGE): `for x in it`, `for (i, x) in
+        # it.enumerate()`, `if let / while let / match Some(x) = it.next()`
+        self.yielded = {}
+        if YIELD_RANGE:
+            for n in nodes:
+                try:
+                    fl = hir.for_loop(n) if n.get("k") == "match" and n.get("src") == "ForLoopDesugar" else None
+                except Exception:
+                    fl = None
+                if fl:
+                    self._bind_yield(fl[0], hir.simp(fl[1]).get("ty"))
+                pats, init = [], None
+                if n.get("k") == "letexpr":
+                    pats, init = [n["pat"]], n.get("init")
+                elif n.get("k") == "match" and n.get("src") != "ForLoopDesugar":
+                    pats, init = [a["pat"] for a in n.get("arms", [])], n.get("scrut")
+                if init is not None and hir.is_call(hir.simp(init), "Iterator::next") and hir.simp(init).get("args"):
+                    ty = hir.simp(hir.simp(init)["args"][0]).get("ty")
+                    for p_ in pats:
+                        path = (p_.get("path") or {}).get("path", "") if isinstance(p_.get("path"), dict) else ""
+                        if path.endswith("Option::Some"):
+                            sub = p_["fields"][0]["p"] if p_.get("k") == "pstruct" and p_.get("fields") else (p_.get("pats") or [None])[0]
+                            if sub:
+                                self._bind_yield(sub, ty)
+
+    def _bind_yield(self, pat, ty):
+        ty = str(ty or "").strip()
+        while ty.startswith("&"):
+            ty = ty[1:].strip()
+            if ty.startswith("mut "):
+                ty = ty[4:]
+        enum_pref = "core::iter::adapters::enumerate::Enumerate<"
+        if ty.startswith(enum_pref) and ty.endswith(">") and pat.get("k") == "ptuple" and len(pat.get("pats", [])) == 2:
+            return self._bind_yield(pat["pats"][1], ty[len(enum_pref):-1])
+        if ty in YIELD_RANGE and pat.get("k") == "pbind" and "sub" not in pat:
+            self.yielded[(pat["name"], pat.get("id"))] = YIELD_RANGE[ty]
 
     def inside(self, node, container):
         return self.order[id(container)] <= self.order[id(node)] <= self.last[id(container)]
@@ -276,6 +315,8 @@ def _interval(e, cx, refine, depth=0, at=None):
         return (v, v) if isinstance(v, int) else tr
     if k == "local":
         key = (e["name"], e.get("id"))
+        if key in getattr(cx, "yielded", {}) and key not in cx.assigned:
+            return clip(cx.yielded[key], tr)
         if key in cx.lets and key not in cx.assigned:
             init = cx.lets[key]
             # the initialiser is evaluated at the point of the `let`, not at the use
